@@ -568,7 +568,7 @@ func (k Keeper) convertCoinToEvmBornCoin(
 	// Emit tx logs of Mint event
 	err = ctx.EventManager().EmitTypedEvent(&evm.EventTxLog{Logs: evmResp.Logs})
 	if err == nil {
-		k.updateBlockBloom(ctx, evmResp, uint64(k.EvmState.BlockTxIndex.GetOr(ctx, 0)))
+		k.updateBlockBloom(ctx, evmResp, uint64(txConfig.LogIndex))
 	}
 
 	return &evm.MsgConvertCoinToEvmResponse{}, nil
@@ -586,9 +586,10 @@ func (k Keeper) convertCoinToEvmBornERC20(
 	funTokenMapping evm.FunToken,
 ) (*evm.MsgConvertCoinToEvmResponse, error) {
 	// needs to run first to populate the StateDB on the BankKeeperExtension
+	txConfig := k.TxConfig(ctx, gethcommon.Hash{})
 	stateDB := k.Bank.StateDB
 	if stateDB == nil {
-		stateDB = k.NewStateDB(ctx, k.TxConfig(ctx, gethcommon.Hash{}))
+		stateDB = k.NewStateDB(ctx, txConfig)
 	}
 	defer func() {
 		k.Bank.StateDB = nil
@@ -669,7 +670,7 @@ func (k Keeper) convertCoinToEvmBornERC20(
 	// Emit tx logs of Transfer event
 	err = ctx.EventManager().EmitTypedEvent(&evm.EventTxLog{Logs: evmResp.Logs})
 	if err == nil {
-		k.updateBlockBloom(ctx, evmResp, uint64(k.EvmState.BlockTxIndex.GetOr(ctx, 0)))
+		k.updateBlockBloom(ctx, evmResp, uint64(txConfig.LogIndex))
 	}
 
 	return &evm.MsgConvertCoinToEvmResponse{}, nil
